@@ -1,13 +1,22 @@
 import GapicModel.Model.Mock
+import GapicModel.Lemmas.C13Mock
 /-
 C13 — the emitted unit-test suite passes against the emitted library.
 The clause itself is decided by EXECUTION (pytest on the emitted tests/unit of every generated
 library of the conventional profile, DESIGN §8).  What is logic is proved here: the sample requests the
 test templates rely on instantiate their path templates (so `transcode` finds a binding and routing
-regexes match), with fresh values per wildcard.
+regexes match), with fresh values per wildcard; the sample request of an http rule, written back into the rule,
+instantiates the rule's own path template; the mock values have the Python type of the field kind, lie in the
+ranges the emitted assertions rely on, always come out of `mock_value_original_type` (the visited set ends the
+recursion) and fit the types they are handed to; `mock_value` is the same for every sufficient recursion depth
+and has NO value for a message whose first field is a map back to itself (the real generator raises
+RecursionError there: finding `generation:RecursionError@schema/wrappers.py:map`).
+Helper lemmas: Lemmas/C13Mock.lean.
 -/
 namespace GapicModel.Props.C13
-open GapicModel.Model.Mock
+open GapicModel.Model.Mock GapicModel.Lemmas.C13Mock
+
+deriving instance DecidableEq for Except
 
 section Aux
 
@@ -91,5 +100,295 @@ theorem sample_names_fresh : ∀ (toks : List Tok) (k : Nat),
 /-! ## Non-vacuity -/
 
 example : (sample 0 (tokenize 20 [] "shelves/*/books/**".toList)).1 = "shelves/sample1/books/sample2".toList := by decide
+
+
+/-! ## Mock values (Field.primitive_mock, mock_value_original_type) -/
+
+/-- **Mock values are well-typed for the field kind** (primitives): for every Python type of `Field.type`, field
+name and suffix the mock is a value of that Python type. -/
+theorem primitive_mock_well_typed (t : PyT) (name : Str) (k : Nat) : primFits t (primitiveMock t name k) = true :=
+  primFits_primitiveMock t name k
+
+/-- a float mock `n * 10^-len(str(n))` lies in [0.1, 1) whenever the name sum is positive — never 0.0 (so it is truthy
+and `x or None` keeps it) and never 1.0 -/
+theorem float_mock_in_unit_interval (name : Str) (k : Nat) (h : 0 < ordSum name + k) :
+    ∃ n d, primitiveMock .float name k = .dec n d ∧ n < 10 ^ d ∧ 10 ^ d ≤ 10 * n := by
+  refine ⟨ordSum name + k, (decDigits (ordSum name + k)).length, rfl, (decDigits_len _).2.1, ?_⟩
+  obtain ⟨h1, _, hlb⟩ := decDigits_len (ordSum name + k)
+  have hl := hlb (by omega)
+  have hp : 10 ^ (decDigits (ordSum name + k)).length = 10 ^ ((decDigits (ordSum name + k)).length - 1) * 10 := by
+    have : (decDigits (ordSum name + k)).length = ((decDigits (ordSum name + k)).length - 1) + 1 := by omega
+    rw [this, Nat.pow_succ]; simp
+  rw [hp]; omega
+
+example : primitiveMock .float "f_float".toList 0 = .dec 731 3 := by decide
+
+/-- an integer mock of a field with an ASCII name stays inside every protobuf integer type (here: below 2^31) as long
+as the name is shorter than 16.9 million characters -/
+theorem int_mock_fits_int32 (name : Str) (k : Nat) (hascii : ∀ c ∈ name, c.toNat < 128)
+    (hlen : 127 * name.length + k < 2 ^ 31) :
+    ∃ i : Nat, primitiveMock .int name k = .int (Int.ofNat i) ∧ i < 2 ^ 31 :=
+  ⟨ordSum name + k, rfl, by have := ordSum_le name hascii; omega⟩
+
+example : primitiveMock .int "pages".toList 0 = .int 528 := by decide
+
+/-- the items of a repeated primitive mock are never `None` (the suffixes 1 and 2 make every kind truthy) -/
+theorem repeated_items_truthy (t : PyT) (name : Str) (k : Nat) (hk : 0 < k) : orNone (primitiveMock t name k) = primitiveMock t name k :=
+  orNone_truthy (primitiveMock_suffix_truthy t name k hk)
+
+/-- an enum mock is the number of a declared value, and a non-zero one whenever the enum has one -/
+theorem enum_mock_is_member (vals : List (Str × Int)) (n : Int) (h : enumMockNumber vals = some n) :
+    (∃ v ∈ vals, v.2 = n) ∧ ((∃ v ∈ vals, v.2 ≠ 0) → n ≠ 0) := by
+  refine ⟨enumMockNumber_mem h, ?_⟩
+  intro ⟨w, hw, hw0⟩
+  cases vals with
+  | nil => cases hw
+  | cons v0 r =>
+    simp only [enumMockNumber, Option.some.injEq] at h
+    cases hf : List.find? (fun v => decide (v.2 ≠ 0)) (v0 :: r) with
+    | none =>
+      have := List.find?_eq_none.mp hf w hw
+      simp at this; exact absurd this hw0
+    | some x =>
+      rw [hf] at h
+      have hx := List.find?_some hf
+      simp only [Option.getD_some] at h
+      rw [← h]; simpa using hx
+
+example : enumMockNumber [("A".toList, 0), ("B".toList, 0), ("C".toList, -3), ("D".toList, 10)] = some (-3) := by decide
+
+/-- **`mock_value_original_type` always ends** within `env.length + 1` levels: every descent into a message adds
+that message to the visited set (for every schema protoc can produce: referenced messages exist, enums have a
+value).  This is the termination argument of the Python recursion, checked. -/
+theorem mock_original_terminates (env : Env) (f : Field) (hc : closed env = true) (hf : fieldOk env f = true) :
+    ∃ v, mockOrig env f = .ok v := by
+  obtain ⟨v, vis', h, _, _⟩ := mockOrigF_ok (env.length + 1) env [] f hc hf (inv_nil env) (by simp)
+  exact ⟨v, by simp [mockOrig, h]⟩
+
+/-- **Mock values are well-typed for the field kind** (all kinds): whatever `mock_value_original_type` returns fits
+the field it was computed for — a value of the primitive's Python type or `None`, a declared enum number, a dict
+whose keys are fields of the message with fitting values, a list of those for a repeated field — with ONE quirk kept
+visible: a repeated message field whose message was already visited gets `{}` instead of a list. -/
+theorem mock_original_fits (env : Env) (f : Field) (v : PyVal) (hd : distinctNames env = true)
+    (h : mockOrig env f = .ok v) : fits false env v f.ty f.repeated = true := by
+  unfold mockOrig at h
+  cases hm : mockOrigF (env.length + 1) env [] f with
+  | error e => rw [hm] at h; simp at h
+  | ok p =>
+    obtain ⟨v', vis'⟩ := p
+    rw [hm] at h
+    simp only [Except.ok.injEq] at h
+    subst h
+    exact mockOrigF_fits _ env [] f v' vis' hd hm
+
+/-- `Chapter { string title = 1; repeated Chapter sub = 2; }` and a field `repeated Chapter chapters` -/
+def chapterEnv : Env := [⟨"Chapter".toList, 0, [⟨"title".toList, 0, .prim .str, false⟩, ⟨"sub".toList, 1, .msg 0, true⟩], false, false⟩]
+def chaptersField : Field := ⟨"chapters".toList, 2, .msg 0, true⟩
+
+example : closed chapterEnv = true ∧ fieldOk chapterEnv chaptersField = true ∧ distinctNames chapterEnv = true := by decide
+
+/-- the quirk is real: under the strict reading (a repeated field takes a list) the mock of `chapters` does not fit —
+its inner `sub` is `{}`.  Run on the real code: `[{'title': 'title_value', 'sub': {}}]`, which proto-plus accepts. -/
+theorem mock_original_strict_counterexample :
+    mockOrig chapterEnv chaptersField =
+      .ok (.lcons (.dcons "title".toList (.str "title_value".toList) (.dcons "sub".toList .dnil .dnil)) .lnil) ∧
+    fits true chapterEnv (.lcons (.dcons "title".toList (.str "title_value".toList) (.dcons "sub".toList .dnil .dnil)) .lnil)
+      (.msg 0) true = false := by
+  refine ⟨by decide, ?_⟩
+  simp [fits, fitsList, fitsOne, fitsDict, chapterEnv, findField]
+
+/-! ## Sample requests of an http rule (HttpRule.sample_request) -/
+
+section AuxSample
+
+theorem getLast_none_of_not_mem (p : Str) : ∀ (l : List (Str × PyVal)), p ∉ l.map (·.1) → getLast p l = none := by
+  intro l
+  induction l with
+  | nil => intro _; rfl
+  | cons a r ih =>
+    intro h
+    obtain ⟨q, v⟩ := a
+    simp only [List.map_cons, List.mem_cons, not_or] at h
+    simp only [getLast, ih h.2]
+    simp [Ne.symm h.1]
+
+theorem sampleRequest_paths : ∀ (vars : List PVar) (k : Nat), (sampleRequest k vars).map (·.1) = vars.map (·.path) := by
+  intro vars
+  induction vars with
+  | nil => intro k; rfl
+  | cons v r ih =>
+    intro k
+    simp only [sampleRequest]
+    split <;> simp [ih]
+
+theorem fill_matches (req : Str → Option Str) : ∀ (pieces : List Piece),
+    (∀ p t, Piece.var p t ∈ pieces → ∃ s, req p = some s ∧ Matches (tmplToks t) s) →
+    ∃ url, fill req pieces = some url ∧ UrlMatches pieces url := by
+  intro pieces
+  induction pieces with
+  | nil => intro _; exact ⟨[], rfl, UrlMatches.nil⟩
+  | cons pc r ih =>
+    intro h
+    obtain ⟨u, hu, hm⟩ := ih (fun p t hp => h p t (by simp [hp]))
+    cases pc with
+    | lit cs => exact ⟨cs ++ u, by simp [fill, hu], UrlMatches.lit cs r u hm⟩
+    | var p t =>
+      obtain ⟨s', hs, hms⟩ := h p t (by simp)
+      exact ⟨s' ++ u, by simp [fill, hs, hu], UrlMatches.var p t s' r u hms hm⟩
+
+theorem mem_pieceVars : ∀ (pieces : List Piece) (p : Str) (t : Option Str), Piece.var p t ∈ pieces → (p, t) ∈ pieceVars pieces := by
+  intro pieces
+  induction pieces with
+  | nil => intro p t h; cases h
+  | cons pc r ih =>
+    intro p t h
+    cases pc with
+    | lit cs =>
+      simp only [pieceVars]
+      rcases List.mem_cons.mp h with h1 | h1
+      · cases h1
+      · exact ih p t h1
+    | var q u =>
+      simp only [pieceVars, List.mem_cons]
+      rcases List.mem_cons.mp h with h1 | h1
+      · left; cases h1; rfl
+      · right; exact ih p t h1
+
+end AuxSample
+
+/-- **What each path variable of a rule receives**: with pairwise distinct variable paths, a string variable holds its own
+template instantiated with fresh sample names (the generator state `k'` it saw), every other kind holds the field's
+`mock_value_original_type` — and does not consume a sample name. -/
+theorem sample_request_lookup : ∀ (vars : List PVar) (k : Nat), (vars.map (·.path)).Nodup → ∀ v ∈ vars,
+    (v.isStr = true → ∃ k', getLast v.path (sampleRequest k vars) = some (.str (sample k' (tmplToks v.tmpl)).1)) ∧
+    (v.isStr = false → getLast v.path (sampleRequest k vars) = some v.other) := by
+  intro vars
+  induction vars with
+  | nil => intro k _ v hv; cases hv
+  | cons w r ih =>
+    intro k hnd v hv
+    simp only [List.map_cons, List.nodup_cons] at hnd
+    rcases List.mem_cons.mp hv with h | h
+    · subst h
+      have hnone : ∀ k2, getLast v.path (sampleRequest k2 r) = none := fun k2 =>
+        getLast_none_of_not_mem _ _ (by rw [sampleRequest_paths]; exact hnd.1)
+      constructor
+      · intro hs; exact ⟨k, by simp [sampleRequest, hs, getLast, hnone]⟩
+      · intro hs; simp [sampleRequest, hs, getLast, hnone]
+    · have hne : w.path ≠ v.path := by
+        intro he; apply hnd.1; rw [he]; exact List.mem_map.mpr ⟨v, h, rfl⟩
+      by_cases hw : w.isStr = true
+      · obtain ⟨i1, i2⟩ := ih (sample k (tmplToks w.tmpl)).2.1 hnd.2 v h
+        constructor
+        · intro hs; obtain ⟨k', hk'⟩ := i1 hs; exact ⟨k', by simp [sampleRequest, hw, getLast, hk']⟩
+        · intro hs; simp [sampleRequest, hw, getLast, i2 hs]
+      · obtain ⟨i1, i2⟩ := ih k hnd.2 v h
+        constructor
+        · intro hs; obtain ⟨k', hk'⟩ := i1 hs; exact ⟨k', by simp [sampleRequest, hw, getLast, hk']⟩
+        · intro hs; simp [sampleRequest, hw, getLast, i2 hs]
+
+/-- the variables of a rule, all bound to string fields -/
+def strVars (pieces : List Piece) : List PVar := (pieceVars pieces).map fun v => ⟨v.1, v.2, true, .none⟩
+
+/-- **The sample request for an http rule matches the rule's own path template**: for every rule whose variables have
+pairwise distinct field paths (and are strings), writing the request's values back into the rule succeeds and yields a
+URL in which every variable's text matches that variable's own template — so `transcode` selects the binding and
+`path_template.validate(rule, url)` holds in the emitted REST tests. -/
+theorem http_sample_request_fills_rule (pieces : List Piece) (hnd : ((pieceVars pieces).map (·.1)).Nodup) :
+    ∃ url, fill (fun p => strOf (getLast p (sampleRequest 0 (strVars pieces)))) pieces = some url ∧
+      UrlMatches pieces url := by
+  apply fill_matches
+  intro p t hp
+  have hmem : (⟨p, t, true, .none⟩ : PVar) ∈ strVars pieces :=
+    List.mem_map.mpr ⟨(p, t), mem_pieceVars pieces p t hp, rfl⟩
+  have hnd' : ((strVars pieces).map (·.path)).Nodup := by
+    simpa [strVars, List.map_map, Function.comp_def] using hnd
+  obtain ⟨k', hk'⟩ := (sample_request_lookup (strVars pieces) 0 hnd' _ hmem).1 rfl
+  have hk2 : getLast p (sampleRequest 0 (strVars pieces)) = some (.str (sample k' (tmplToks t)).1) := hk'
+  refine ⟨(sample k' (tmplToks t)).1, ?_, sample_matches_template _ _⟩
+  show strOf (getLast p (sampleRequest 0 (strVars pieces))) = some (sample k' (tmplToks t)).1
+  rw [hk2]; rfl
+
+example : parseUri "/v1/{name=shelves/*/books/**}/to/{book.shelf}:move".toList =
+    [.lit "/v1/".toList, .var "name".toList (some "shelves/*/books/**".toList), .lit "/to/".toList,
+     .var "book.shelf".toList none, .lit ":move".toList] := by decide
+
+example : fill (fun p => strOf (getLast p (sampleRequest 0 (strVars (parseUri "/v1/{name=shelves/*/books/**}/to/{book.shelf}:move".toList)))))
+    (parseUri "/v1/{name=shelves/*/books/**}/to/{book.shelf}:move".toList) =
+    some "/v1/shelves/sample1/books/sample2/to/sample3:move".toList := by decide
+
+/-- the distinctness hypothesis is needed: a rule that binds one field twice keeps only the LAST value, which does not
+match the first template (run on the real `HttpRule.sample_request`: `{'name': 'b/sample2'}`; such a rule is not a
+valid google.api.http pattern) -/
+theorem http_sample_duplicate_var_counterexample :
+    fill (fun p => strOf (getLast p (sampleRequest 0 (strVars (parseUri "/{name=a/*}/{name=b/*}".toList)))))
+      (parseUri "/{name=a/*}/{name=b/*}".toList) = some "/b/sample2/b/sample2".toList := by decide
+
+/-! ## `Field.mock_value` (expression form) -/
+
+/-- `message Node { map<string, Node> children = 1; }` as the loader holds it, and a field of type Node -/
+def nodeEnv : Env :=
+  [⟨"lib.Node".toList, 0, [⟨"children".toList, 0, .msg 1, true⟩], false, false⟩,
+   ⟨"lib.Node.ChildrenEntry".toList, 1, [⟨"key".toList, 1, .prim .str, false⟩, ⟨"value".toList, 2, .msg 0, false⟩], true, false⟩]
+def nodeField : Field := ⟨"node".toList, 3, .msg 0, false⟩
+def nodeKeyField : Field := ⟨"key".toList, 1, .prim .str, false⟩
+def nodeValueField : Field := ⟨"value".toList, 2, .msg 0, false⟩
+
+section AuxNode
+
+theorem node_chain (rec : Field → Except MockErr MockExpr)
+    (hk : rec nodeKeyField = .error .fuel ∨ ∃ k, rec nodeKeyField = .ok k)
+    (hv : rec nodeValueField = .error .fuel) :
+    chainF rec nodeEnv (totalFields nodeEnv + 2) [] nodeField = .error .fuel ∧
+    chainF rec nodeEnv (totalFields nodeEnv + 2) [] nodeValueField = .error .fuel := by
+  have h5 : totalFields nodeEnv + 2 = 5 := by decide
+  rw [h5]
+  rcases hk with hk | ⟨k, hk⟩ <;>
+    simp_all [chainF, nodeEnv, nodeField, nodeKeyField, nodeValueField, findField]
+
+theorem node_key (rec : Field → Except MockErr MockExpr) :
+    ∃ k, chainF rec nodeEnv (totalFields nodeEnv + 2) [] nodeKeyField = .ok k := by
+  have h5 : totalFields nodeEnv + 2 = 5 := by decide
+  rw [h5]
+  simp [chainF, nodeKeyField, wrapList]
+
+end AuxNode
+
+/-- **`mock_value` has no value for a message whose first field is a map back to the message** — at every recursion
+depth: the map branch of `inner_mock` asks for the `mock_value` of the map's value field with a FRESH visited set.
+The real generator raises RecursionError for such a flattened field (finding, corpus/C13/recursive_map_first_field.json). -/
+theorem mock_value_self_map_counterexample : ∀ d, mockValueF d nodeEnv nodeField = .error .fuel ∧
+    mockValueF d nodeEnv nodeValueField = .error .fuel := by
+  intro d
+  suffices h : (mockValueF d nodeEnv nodeField = .error .fuel ∧ mockValueF d nodeEnv nodeValueField = .error .fuel) ∧
+      (mockValueF d nodeEnv nodeKeyField = .error .fuel ∨ ∃ k, mockValueF d nodeEnv nodeKeyField = .ok k) from h.1
+  induction d with
+  | zero => exact ⟨⟨rfl, rfl⟩, Or.inl rfl⟩
+  | succ d ih =>
+    exact ⟨node_chain (mockValueF d nodeEnv) ih.2 ih.1.2, Or.inr (node_key (mockValueF d nodeEnv))⟩
+
+/-- while the original-type mock of the same field ends (the map is cut to `{}`) -/
+example : mockOrig nodeEnv nodeField = .ok (.dcons "children".toList .dnil .dnil) := by decide
+
+/-- the loop of `mock_value` on ordinary shapes: constructor chain, enum member, map literal, list -/
+example : mockValueF 3
+    [⟨"lib.Book".toList, 0, [⟨"author".toList, 0, .msg 1, false⟩], false, false⟩,
+     ⟨"lib.Author".toList, 1, [⟨"kind".toList, 1, .enum "lib.Kind".toList [("K0".toList, 0), ("K1".toList, 1)], true⟩], false, false⟩]
+    ⟨"book".toList, 2, .msg 0, true⟩ =
+    .ok (.list1 (.ctor "lib.Book".toList "author".toList (.ctor "lib.Author".toList "kind".toList
+      (.list1 (.enumMember "lib.Kind".toList "K1".toList))))) := by decide
+
+/-- **`mock_value` does not depend on the recursion depth once it has a value**: whatever depth first yields a value,
+every larger depth yields the same one (so "the" mock value of a field is well defined, and the interpreter's recursion
+limit can only turn a value into a RecursionError, never into another value). -/
+theorem mock_value_depth_independent (env : Env) (f : Field) (e : MockExpr) (d : Nat)
+    (h : mockValueF d env f = .ok e) : ∀ n, mockValueF (d + n) env f = .ok e := by
+  intro n
+  induction n with
+  | zero => exact h
+  | succ n ih => exact mockValueF_mono (d + n) env f e ih
+
+example : mockValueF 1 chapterEnv chaptersField =
+    .ok (.list1 (.ctor "Chapter".toList "title".toList (.lit (.str "title_value".toList)))) := by decide
 
 end GapicModel.Props.C13
